@@ -90,7 +90,11 @@ func (r *Response) sendBackResponse(
 		http.Redirect(w, req, fmt.Sprintf("%s?%s", r.AcsUrl, BuildRedirectQuery(string(respData), r.RelayState, r.SigAlg, r.Signature)), http.StatusFound)
 		return
 	default:
-		//TODO: no binding
+		// no supported binding to deliver the response with, hand it back in the body
+		if err := xml.Write(w, respData); err != nil {
+			r.ErrorFunc(err)
+			return
+		}
 	}
 }
 
